@@ -39,9 +39,9 @@ LEVEL_TEXT = (
     "Lean theorems for ALL fault scripts / backoff streams / delay configurations / label lists of any number of "
     "requesters. Request loop: attempts_bound (one pass of the function under @authenticated; a 401 re-enters with a "
     "new budget), gap_ge_backoff (every position; guard = exactly the documented override: enforce_retry_after AND a 429 "
-    "with a usable Retry-After), gap_ge_retry_after (the parsed value), gap_ge_requested_partial (against what the server "
-    "SENT; guard: status 429, header spelled 'Retry-After', whole seconds) with three negation witnesses "
-    "(fractional_delay_truncated_witness = F5, other_case_header_ignored_witness = F4, retry_after_on_5xx_ignored_witness "
+    "with a usable Retry-After), gap_ge_retry_after (the parsed value), gap_ge_requested (against what the server SENT: "
+    "fractions, any spelling of the header name, HTTP-date, details - no guard besides status 429), requested_rounded_up, "
+    "fractional_delay_rounded_up (F5 repaired), other_case_header_honoured (F4 repaired), retry_after_on_5xx_ignored_witness "
     "= by design/documented), fatal_4xx_immediate, transient_retried_then_escalates, success_stops, transient_http_iff, "
     "retry_after_http_date + http_date_delay_exact (F1 repaired), unparsable_retry_after_uses_backoff (F1/F2 repaired, any "
     "position). Throttler: delays_follow_config (k-th consecutive error -> delays[min(k,last)] and the pause is served: "
@@ -61,8 +61,8 @@ TIE = ("T (check_response chain + retry tuple: AST → Lean, proved equal) + D (
        "under virtual time, exact tick comparison, incl. the N-object product run) + A (real Vault/authenticated/"
        "authenticator: labelled segments accepted by the Lean LTS with equal vault state after every label)")
 THEOREMS = [("Kopf.Props.C12", "Kopf.C12." + n) for n in [
-    "attempts_bound", "gap_ge_backoff", "gap_ge_retry_after", "gap_ge_requested_partial",
-    "fractional_delay_truncated_witness", "other_case_header_ignored_witness", "retry_after_on_5xx_ignored_witness",
+    "attempts_bound", "gap_ge_backoff", "gap_ge_retry_after", "gap_ge_requested", "requested_rounded_up",
+    "fractional_delay_rounded_up", "other_case_header_honoured", "retry_after_on_5xx_ignored_witness",
     "fatal_4xx_immediate", "transient_retried_then_escalates", "success_stops", "transient_http_iff",
     "retry_after_http_date", "http_date_delay_exact", "unparsable_retry_after_uses_backoff",
     "delays_follow_config", "empty_config_never_throttles", "success_resets", "swallowed",
@@ -101,7 +101,7 @@ TRUSTED = [
 ]
 ASSUMPTIONS = [
     "Retry-After is honoured for HTTP 429 only, as documented in docs/configuration.rst; a Retry-After on 5xx/403 is ignored by the code (retry_after_on_5xx_ignored_witness) and not judged",
-    "Retry-After forms: delay-seconds (int(float()): fractions truncated = open finding F5), HTTP-date (F1 fixed in dee5a41, rounded up in 19d7f3b: judged strictly, never before the date), garbage and float overflow (F2 fixed in ae1ab5d) are ignored like an absent header except that the body's retryAfterSeconds is then not consulted; a header name spelled other than 'Retry-After' is not found (open finding F4; the fake response's headers are a CIMultiDictProxy like aiohttp's)",
+    "Retry-After forms: delay-seconds are rounded UP to whole seconds (F5 fixed in e640e5e; header and details.retryAfterSeconds), found under any capitalisation of the header name (F4 fixed in aac39f2; the fake response's headers are a CIMultiDictProxy like aiohttp's), HTTP-date (F1 fixed in dee5a41, rounded up in 19d7f3b) - all judged strictly: never before what the server asked; garbage and float overflow (F2 fixed in ae1ab5d) are ignored like an absent header except that the body's retryAfterSeconds is then not consulted; F1, F2, F4, F5 witnesses stay in corpus/C12 as regression cases",
     "with settings.networking.enforce_retry_after a 429 carrying a usable Retry-After waits for the server's value even if shorter than the backoff (documented override; exactly the guard of gap_ge_backoff)",
     "error_backoffs / error_delays are re-iterable (list, tuple, object with __iter__); a one-shot generator object is consumed across requests / shared by all objects' throttlers and is outside the model (the property quantifies over re-iterable configurations)",
     "settings.queueing.error_delays is an Iterable as annotated; a scalar makes iter() raise TypeError out of throttled (scalar_delays_escape_witness; that escape stops the operator via queueing.watcher; modelled, not judged: misconfiguration)",
@@ -718,10 +718,10 @@ def oracle_request(case: dict, obs: dict) -> list[tuple[str, dict]]:
         if gap < max(0, b) and not (case["enforce"] and ra is not None):
             out.append((f"waited {gap} ticks, configured backoff {b}", {"site": "api.request", "shape": "gap<backoff"}))
         if ra is not None and gap < ra:
-            if shape == "other-case":
+            if shape == "other-case" and not (ra % 1024 and gap >= (ra // 1024) * 1024):
                 out.append((f"waited {gap} ticks after a 429 asking for {ra} in a header spelled {a.get('hdr_name')!r}",
                             {"site": "errors.check_response/api.request", "shape": "Retry-After under another capitalisation is ignored (case-sensitive dict lookup)"}))
-            elif shape == "fraction" and gap >= (ra // 1024) * 1024:
+            elif shape in ("fraction", "other-case") and ra % 1024 and gap >= (ra // 1024) * 1024:
                 out.append((f"waited {gap} ticks after a 429 asking for {ra} (fractional seconds truncated)",
                             {"site": "api.request/_parse_retry_after", "shape": "fractional Retry-After seconds truncated down by int()"}))
             else:
@@ -1665,7 +1665,7 @@ def ask_lean(requests: list) -> list:
     missing/broken in the shared tree (Driver.lean imports all of them), the same protocol is served
     by a private main that imports Kopf.Drv.C12 only (local harness feature; same handler)."""
     try:
-        return leanio.Driver().ask(requests)
+        return leanio.Driver(["C12"]).ask(requests)
     except leanio.LeanError as first:
         import shutil
         import tempfile
